@@ -468,13 +468,24 @@ impl PredicatePushdown {
             }
 
             LogicalPlan::Limit(node) => {
-                // Push through limit
-                let input = self.pushdown(&node.input, predicates)?;
-                Ok(LogicalPlan::Limit(crate::planner::LimitNode {
+                // LIMIT/OFFSET is a barrier: a predicate from above filters
+                // the rows that SURVIVED the limit; below it, it would change
+                // which rows survive. Keep it above, push nothing down.
+                let input = self.pushdown(&node.input, vec![])?;
+                let limit = LogicalPlan::Limit(crate::planner::LimitNode {
                     input: Arc::new(input),
                     skip: node.skip,
                     fetch: node.fetch,
-                }))
+                });
+                if predicates.is_empty() {
+                    Ok(limit)
+                } else {
+                    let combined = self.combine_predicates(predicates);
+                    Ok(LogicalPlan::Filter(FilterNode {
+                        input: Arc::new(limit),
+                        predicate: combined,
+                    }))
+                }
             }
 
             LogicalPlan::Distinct(node) => {
